@@ -160,10 +160,16 @@ func symBroker(K, maxLen int, exact bool) *vState {
 		verifAssume(s.ths0 >= 0)
 		s.g = &graph{successThreshold: s.th0, successThresholdSinks: s.ths0}
 		b.graphs[s.t] = s.g
-		if nondetBool() {
+		hasP, hasO := nondetBool(), nondetBool()
+		// the order in which sync.Map.Range visits the two pipelines is arbitrary: either may come first
+		if hasO && hasP && nondetBool() {
+			s.mkPipe(&s.o, 2)
+			hasO = false
+		}
+		if hasP {
 			s.mkPipe(&s.p, maxLen)
 		}
-		if nondetBool() {
+		if hasO {
 			s.mkPipe(&s.o, 2)
 		}
 	}
